@@ -788,6 +788,13 @@ func (w *Wallet) recovery(chainClient chain.Interface,
 		// state to disk.
 		recoveryBatch := recoveryMgr.BlockBatch()
 		if len(recoveryBatch) == recoveryBatchSize || height == bestHeight {
+			// Extending the found addresses advances the address
+			// manager's in-memory indexes, as a concurrent request
+			// for a new address does once its transaction has
+			// committed. Hold the new address mutex over the whole
+			// database transaction, as those requests do, so that
+			// neither can overwrite the other's update.
+			w.newAddrMtx.Lock()
 			err := walletdb.Update(w.db, func(tx walletdb.ReadWriteTx) error {
 				ns := tx.ReadWriteBucket(waddrmgrNamespaceKey)
 				if err := w.recoverScopedAddresses(
@@ -810,6 +817,7 @@ func (w *Wallet) recovery(chainClient chain.Interface,
 
 				return nil
 			})
+			w.newAddrMtx.Unlock()
 			if err != nil {
 				return err
 			}
